@@ -270,3 +270,84 @@ func H_C17_xlsx_package() {
 	}
 	vReach("end")
 }
+
+// H_C17_xlsx_awkward_cells: values and references that a placement-by-reference reader gets wrong when it takes short
+// cuts: a line break or a tab inside a value, values stored in the covered cells of a merged region, and cells that
+// leave out their (optional) r attribute and sit right after their predecessor.
+//
+//symgo:harness prop=C17 kernel=K5-xlsx-awkward-cells noreplay=1
+//symgo:redirect archive/zip.OpenReader vStubOpenZip
+//symgo:desc zip layer cut (member content model); 2x3 sheet A1..C2; A1 is the inline string "x<LF>y", "p<TAB>q" or "plain" (enumerated); the other cells are the numbers 2..6; optionally (enumerated) the region A1:B2 is merged while B1, A2 and B2 still carry their values; optionally (enumerated) the second cell of each row leaves out its r attribute: the grid, line r / field c of Text(), the model table of Tables() and the pipe table of Markdown() all show each value at its address - a value's line break or tab rendered as a blank so that it stays one field - and covered cells of the merged region blank
+func H_C17_xlsx_awkward_cells() {
+	a1 := []string{"x\ny", "p\tq", "plain"}[vAnyIntIn(0, 2)]
+	merged := vAnyIntIn(0, 1) == 1
+	implicit := vAnyIntIn(0, 1) == 1
+	ref := func(r string) string {
+		if implicit {
+			return ""
+		}
+		return ` r="` + r + `"`
+	}
+	ws := `<?xml version="1.0"?><worksheet ` + vNS + `><sheetData>` +
+		`<row r="1"><c r="A1" t="inlineStr"><is><t xml:space="preserve">` + a1 + `</t></is></c><c` + ref("B1") + `><v>2</v></c><c r="C1"><v>3</v></c></row>` +
+		`<row r="2"><c r="A2"><v>4</v></c><c` + ref("B2") + `><v>5</v></c><c r="C2"><v>6</v></c></row></sheetData>`
+	if merged {
+		ws += `<mergeCells count="1"><mergeCell ref="A1:B2"/></mergeCells>`
+	}
+	ws += `</worksheet>`
+	flat := strings.NewReplacer("\n", " ", "\t", " ").Replace(a1)
+	want := [2][3]string{{flat, "2", "3"}, {"4", "5", "6"}}
+	if merged {
+		want[0][1], want[1][0], want[1][1] = "", "", ""
+	}
+	vZip = &zip.ReadCloser{}
+	vMember("[Content_Types].xml", `<?xml version="1.0"?><Types xmlns="http://schemas.openxmlformats.org/package/2006/content-types"/>`)
+	vMember("xl/worksheets/sheet1.xml", ws)
+	vMember("xl/_rels/workbook.xml.rels", `<?xml version="1.0"?><Relationships xmlns="http://schemas.openxmlformats.org/package/2006/relationships"><Relationship Id="rId1" Type="http://schemas.openxmlformats.org/officeDocument/2006/relationships/worksheet" Target="worksheets/sheet1.xml"/></Relationships>`)
+	vMember("xl/workbook.xml", `<?xml version="1.0"?><workbook `+vNS+` xmlns:r="http://schemas.openxmlformats.org/officeDocument/2006/relationships"><sheets><sheet name="Data" sheetId="1" r:id="rId1"/></sheets></workbook>`)
+	r, err := Open("any.xlsx")
+	vAssert("opens", err == nil && r != nil && len(r.sheets) == 1)
+	sheet := r.sheets[0]
+	vAssert("grid-is-2x3", len(sheet.Rows) == 2 && len(sheet.Rows[0]) == 3 && len(sheet.Rows[1]) == 3)
+	txt, terr := r.Text()
+	vAssert("text-no-error", terr == nil)
+	lines := strings.Split(txt, "\n")
+	vAssert("one-text-line-per-row", len(lines) == 2)
+	tables := r.Tables()
+	vAssert("one-table", len(tables) == 1 && len(tables[0].Headers) == 3 && len(tables[0].Rows) == 1 && len(tables[0].Rows[0]) == 3)
+	md, merr := r.Markdown()
+	vAssert("markdown-no-error", merr == nil)
+	var mdRows [][]string
+	for _, ln := range strings.Split(md, "\n") {
+		ln = strings.TrimSpace(ln)
+		if !strings.HasPrefix(ln, "|") || strings.HasPrefix(ln, "|--") || strings.HasPrefix(ln, "| --") || strings.HasPrefix(ln, "|:") {
+			continue
+		}
+		cells := strings.Split(strings.Trim(ln, "|"), "|")
+		for i := range cells {
+			cells[i] = strings.TrimSpace(cells[i])
+		}
+		mdRows = append(mdRows, cells)
+	}
+	vAssert("markdown-table-has-two-rows", len(mdRows) == 2)
+	for ri := 0; ri < 2; ri++ {
+		fields := strings.Split(lines[ri], "\t")
+		vAssert("one-text-field-per-column", len(fields) == 3)
+		for ci := 0; ci < 3; ci++ {
+			exp := want[ri][ci]
+			cell := sheet.Rows[ri][ci]
+			gridVal := strings.NewReplacer("\n", " ", "\t", " ").Replace(cell.Value)
+			vAssert("grid-value-at-address", gridVal == exp || (exp == "" && cell.IsMerged && !cell.IsMergeRoot))
+			vAssert("text-line-r-field-c", ci < len(fields) && fields[ci] == exp)
+			tv := ""
+			if ri == 0 {
+				tv = tables[0].Headers[ci]
+			} else {
+				tv = tables[0].Rows[0][ci]
+			}
+			vAssert("model-table-cell", strings.NewReplacer("\n", " ", "\t", " ").Replace(tv) == exp)
+			vAssert("markdown-cell", len(mdRows) == 2 && ci < len(mdRows[ri]) && strings.ReplaceAll(mdRows[ri][ci], "\t", " ") == exp) // a tab inside a pipe-table cell is harmless
+		}
+	}
+	vReach("end")
+}
